@@ -358,6 +358,8 @@ def make_view(b, rng, a):
     const = None
     if fn != "getitem" and a.dtype.startswith("float") and rng.random() < 0.15:
         const = rng.random() < 0.5          # a view whose constant flag is given explicitly (it may differ from its base's); every flag survives every update
+    if const is not None:
+        b.explicit_const_views = True       # (the exact functional model does not follow constant flags given to views: such histories are compared with NumPy and by the oracles only)
     return b.apply(fn, [a], p, const=const, spell=sp)
 
 
@@ -457,6 +459,7 @@ def gen_family_history(rng, n_events=None, with_backward=False):
         x = b.leaf(rng.choice([(4,), (2, 3), (2, 2)]), const=cb)
         fnv = rng.choice(["reshape", "transpose", "swapaxes", "expand_dims"])
         pv = {"reshape": {"shape": [-1]}, "transpose": {"axes": None}, "swapaxes": {"a1": 0, "a2": -1}, "expand_dims": {"axis": 0}}[fnv]
+        b.explicit_const_views = True
         v = b.apply(fnv, [x], pv, const=not cb, spell="mg")
         sib = b.apply("getitem", [x], {"index": [{"ellipsis": True}]})
         if v is not None:
